@@ -19,11 +19,17 @@ THEOREMS = [
     "RedunModel.C04.no_raise",
     "RedunModel.C04.reexec_reflects_state",
     "RedunModel.C04.returned_is_current",
+    "RedunModel.C04.full_cache_is_returned",
     "RedunModel.C04.run_again_replays",
+    "RedunModel.C04.shallow_rerun_remark",
     "RedunModel.C04.history_returned_is_current",
     "RedunModel.C04.deleted_file_invalidates",
     "RedunModel.C04.deleted_member_invalidates",
     "RedunModel.C04.immutable_never_invalidates",
+    "RedunModel.C04.observe_of_valid",
+    "RedunModel.C04.cinv_runChain",
+    "RedunModel.C04.chain_answer_current",
+    "RedunModel.C04.chain_consumer_runs_iff_new",
 ]
 TRUSTED = [
     "hashes are symbolic in the model (a hash is its pre-image); the tie compares pre-images recovered from the real "
@@ -39,24 +45,32 @@ ASSUMPTIONS = [
     "file paths; file paths and directory paths are disjoint",
     "external leaves are the 9 file classes and Staging values; Handle leaves are not generated here (handle validity "
     "is C25's subject)",
-    "one task per workflow, run repeatedly with unchanged code and arguments against one in-memory backend; default "
-    "(full) and shallow check_valid; thread executor; execution clock strictly increasing",
-    "the oracle demands: replay => every leaf valid; some leaf invalid => exactly one re-execution, nothing raised, the "
-    "new result's hashes are current. It does not demand a replay when everything is valid (the model's replay_iff_valid "
-    "does, and the correspondence compares it)",
+    "workflows make() and consume(make()), run repeatedly with unchanged code and arguments against one in-memory backend; "
+    "default (full) and shallow check_valid on make; thread executor; execution clock strictly increasing; no Staging "
+    "leaves in consume(make()) workflows (a Staging value pickles the hashes of its two inner Files, which the model's "
+    "consumer key does not carry)",
+    "the oracle demands: nothing raised; at most one execution per run; a replayed result holds only values whose recorded "
+    "hash is their current hash and whose named files are, by the harness's own bookkeeping of size/mtime/bytes/"
+    "membership, as they were when the result was computed; a new result's hashes are current; the downstream answer "
+    "equals the harness's own observation of the current files. It does not demand a replay when everything is valid "
+    "(the model decides that, and the correspondence compares it — including the shallow-mode re-executions of "
+    "shallow_rerun_remark)",
 ]
 RULE = ("histories (4-10 steps) of run / delete / truncate / rewrite (size or mtime or neither changed) / touch / add "
         "directory member over a task returning 1-4 leaves (9 file classes, Staging, plain) nested in list/tuple/dict; "
         "after every step the execution count, escaped exception, recorded hash pre-images of the returned leaves and the "
         "whole file tree are compared with the model, and the property oracle is applied to the real scheduler. distinct = "
         "distinct history texts; non-trivial = at least two runs with an external mutation between them")
-LEVEL_TEXT = ("Proved in Lean for every task body, universe, filesystem and cache state (full strength, on the model of the "
-              "repaired code): replay_iff_valid + valid_means_hashes_equal (a cached result is replayed iff every external "
+LEVEL_TEXT = ("Proved in Lean for every task body, universe, filesystem and cache state, for both check_valid modes (full "
+              "strength, on the model of the repaired code): replay_iff_valid + valid_means_hashes_equal (a cached result is replayed iff every external "
               "leaf's recorded hash equals its current hash, immutable classes always), replay_only_if_valid, "
               "invalid_reexecutes_once, no_raise (the validity check itself cannot fail: run fails only if the task body "
               "does), reexec_reflects_state / returned_is_current (whatever run returns is valid in the filesystem it leaves "
               "behind), run_again_replays, history_returned_is_current (over all histories of external mutations and runs), "
-              "deleted_file_invalidates / deleted_member_invalidates / immutable_never_invalidates. Tied to /repo by running "
+              "deleted_file_invalidates / deleted_member_invalidates / immutable_never_invalidates; downstream of the task: "
+              "chain_answer_current (the answer of a consumer called on the result, replayed or not, equals what it would "
+              "compute now) with its invariant cinv_runChain. run_again_replays / full_cache_is_returned are for the default "
+              "mode; shallow_rerun_remark is the closed witness why not for shallow (not demanded by the property). Tied to /repo by running "
               "real workflows on an in-memory backend and comparing execution counts, exceptions, recorded hashes and file "
               "contents step by step.")
 LEVEL_NOTE = ("The model mirrors /repo with the proposed repair of ContentFile._calc_hash for a missing path (without it "
@@ -140,7 +154,7 @@ def tasks():
 
         def make_shallow(case_id: str, writes: tuple, outs: tuple, shape: str):
             return body(case_id, writes, outs, shape)
-        def consume(x, shape: str, n: int):
+        def consume(case_id: str, x, shape: str, n: int):
             _S["ccount"] += 1
             w = _S["world"]
             return [observe(w, o) for o in flatten(shape, n, x)]
@@ -361,7 +375,7 @@ def run_case(ctx, w, sched, case_id, spec, steps, replies, label):
             try:
                 expr = t(case_id, spec["writes"], spec["outs"], spec["shape"])
                 if spec.get("chain"):
-                    expr = tk["consume"](expr, spec["shape"], n)
+                    expr = tk["consume"](case_id, expr, spec["shape"], n)
                 res = sched.run(expr)
                 err = None
             except Exception as e:  # noqa: BLE001
@@ -464,7 +478,8 @@ def run_cases(ctx, cases):
                 nontrivial = len(runs) >= 2 and any(k != "run" for k in kinds[runs[0]:runs[-1]])
                 ctx.case(key="\n".join(lines[a:b]) if nontrivial else None,
                          sample={"label": label, "steps": [model_line(spec, s) for s in steps][:10]},
-                         shape=spec["shape"], variant=spec["variant"], n_leaves=len(spec["outs"]))
+                         shape=spec["shape"], variant=spec["variant"], n_leaves=len(spec["outs"]),
+                         workflow="consume(make())" if spec.get("chain") else "make()")
                 for kd in kinds:
                     ctx.count("step", kd)
                 for o in spec["outs"]:
@@ -477,7 +492,7 @@ def run_cases(ctx, cases):
 def run(ctx):
     cases = [("corpus-%d" % i, spec, steps) for i, (spec, steps) in enumerate(CORPUS)]
     rng = ctx.rng
-    for i in range(ctx.n(140, 2200)):
+    for i in range(ctx.n(110, 1800)):
         spec, steps = gen_case(rng, rng.choice([3, 5, 7, 9]))
         cases.append(("gen-%d" % i, spec, steps))
     run_cases(ctx, cases)
